@@ -536,6 +536,21 @@ def miri_shard(spec):
     return st.to_dict()
 
 
+def miri_stage(seed, extra, n_proc=4, per=30, timeout=3000):
+    """the interpreter needs ~15 min before its first answer (rule loading), then seconds per expression: n_proc processes side by side"""
+    try:
+        cases = miri_cases(core.sub_seed(seed, PROP, "miri"), n_proc * per)
+        mr = core.run_shards(miri_shard, [{"cases": cases[i::n_proc], "timeout": timeout} for i in range(n_proc)], procs=n_proc)
+        extra["miri"] = {"flags": "-Zmiri-disable-isolation -Zmiri-tree-borrows", "language": "zz", "processes": n_proc, "expressions": len(cases),
+                         "results": sum((x.get("counters") or {}).get("miri_set_mathml_results", 0) for x in mr if x),
+                         "note": "Stacked Borrows is not used: it objects to the XML DOM dependency (sxd-document) on the first parse; a process that "
+                                 "runs into its time limit or an unsupported operation is stated in the notes, never judged"}
+        return mr
+    except (core.Inconclusive, OSError) as e:
+        extra["miri"] = {"not_run": str(e)[:300]}
+        return []
+
+
 # --- fixed obligations: uninitialised use, key codes, nesting depth ----------------------------------------------------------------------
 ALL_CALLS = [("get_version",), ("get_spoken_text",), ("get_overview_text",), ("get_braille", ""), ("get_braille", "x"), ("get_navigation_braille",), ("get_navigation_mathml",),
              ("get_navigation_mathml_id",), ("get_braille_position",), ("get_navigation_node_from_braille_position", 0), ("get_navigation_node_from_braille_position", 7),
@@ -821,18 +836,7 @@ def run(tier, seed):
                                                "violations": sum(len(x.get("violations", [])) for x in r if x and "violations" in x)}
         results += r
     if tier == "thorough" and os.environ.get("VERIF_NO_MIRI") != "1":
-        # the interpreter needs ~15 min before its first answer (rule loading), then seconds per expression: 4 processes side by side
-        try:
-            n_proc, per = 4, 30
-            cases = miri_cases(core.sub_seed(seed, PROP, "miri"), n_proc * per)
-            mr = core.run_shards(miri_shard, [{"cases": cases[i::n_proc], "timeout": 3000} for i in range(n_proc)], procs=n_proc)
-            extra["miri"] = {"flags": "-Zmiri-disable-isolation -Zmiri-tree-borrows", "language": "zz", "processes": n_proc, "expressions": len(cases),
-                             "results": sum((x.get("counters") or {}).get("miri_set_mathml_results", 0) for x in mr if x),
-                             "note": "Stacked Borrows is not used: it objects to the XML DOM dependency (sxd-document) on the first parse; a process that "
-                                     "runs into its time limit or an unsupported operation is stated in the notes, never judged"}
-            results += mr
-        except (core.Inconclusive, OSError) as e:
-            extra["miri"] = {"not_run": str(e)[:300]}
+        results += miri_stage(seed, extra)
     stats, errors = core.Stats.merge(results)
     known, fixed_failures, extra_v = core.replay_findings(PROP, replay)
     stats.violations.extend(extra_v)
